@@ -45,6 +45,10 @@ pub enum Ty {
     Inner,
     /// a stored closure that subscribes an inner observable later (`Box<dyn FnOnce()>`)
     Lazy,
+    /// the scheduler handed to a time operator (`SD: Scheduler<..>`)
+    Sched,
+    /// a task built for the scheduler (`OnceTask::new(f, args)`)
+    Task,
     Named(String),
 }
 
@@ -64,6 +68,8 @@ impl Ty {
             Ty::Grp => "Rs.Grp".into(),
             Ty::Inner => "Rs.Inner".into(),
             Ty::Lazy => "Rs.Lazy".into(),
+            Ty::Sched => "Rs.Sched".into(),
+            Ty::Task => "Rs.Task".into(),
             Ty::Opt(t) => format!("(Option {})", t.lean()),
             Ty::List(t) => format!("(List {})", t.lean()),
             Ty::Tuple(ts) => format!("({})", ts.iter().map(|t| t.lean()).collect::<Vec<_>>().join(" × ")),
@@ -196,6 +202,9 @@ impl Generics {
                             "Subscription" => {
                                 g.map.insert(n.clone(), Ty::Sub);
                             }
+                            "Scheduler" => {
+                                g.map.insert(n.clone(), Ty::Sched);
+                            }
                             "Extend" => {
                                 g.map.insert(n.clone(), Ty::List(Box::new(Ty::Val)));
                             }
@@ -220,6 +229,16 @@ impl Generics {
                 }
             }
             Type::Array(a) => self.ty(&a.elem),
+            Type::ImplTrait(it) => {
+                for b in &it.bounds {
+                    if let TypeParamBound::Trait(tb) = b {
+                        if last_seg(&tb.path) == "Observer" {
+                            return Ok(Ty::Obs);
+                        }
+                    }
+                }
+                bail(format!("type `{}` not understood", show(t)))
+            }
             Type::TraitObject(to) => {
                 for b in &to.bounds {
                     if let TypeParamBound::Trait(tb) = b {
@@ -239,7 +258,7 @@ impl Generics {
                 match name.as_str() {
                     "Box" if args.len() == 1 => self.ty(args[0]),
                     "SmallVec" if args.len() == 1 => Ok(Ty::List(Box::new(self.ty(args[0])?))),
-                    "usize" | "u32" | "u64" | "u8" | "u16" => Ok(Ty::Nat),
+                    "usize" | "u32" | "u64" | "u8" | "u16" | "Duration" => Ok(Ty::Nat),
                     "bool" | "AtomicBool" => Ok(Ty::Bool),
                     "Option" => Ok(Ty::Opt(Box::new(self.ty(args[0])?))),
                     "Vec" | "VecDeque" | "HashSet" => Ok(Ty::List(Box::new(self.ty(args[0])?))),
@@ -320,6 +339,8 @@ pub struct MethodInfo {
     pub needs_pub: bool,
     /// `entry(..).or_insert_with(..)` creating a group subject: extra parameter `newGrp`
     pub needs_grp: bool,
+    /// `scheduler.schedule(..)`: the handle it returns is the extra parameter `newHandle`
+    pub needs_handle: bool,
     /// result type of a pure method
     pub ret: Ty,
     /// a query that can panic: its Lean function returns `Option ret`
@@ -596,6 +617,7 @@ impl<'a> Fx<'a> {
                     },
                     ("len", 0) => Some(Ty::Nat),
                     ("actual_subscribe", 1) if rt == Ty::Inner => Some(Ty::Sub),
+                    ("schedule", 2) if rt == Ty::Sched => Some(Ty::Sub),
                     ("drain", 0) | ("drain", 1) => Some(rt),
                     _ => None,
                 }
@@ -632,6 +654,9 @@ impl<'a> Fx<'a> {
                         }
                         if h.starts_with("BoxSubscription") && c.args.len() == 1 {
                             return self.tyx(&c.args[0]);
+                        }
+                        if h == "OnceTask" {
+                            return Some(Ty::Task);
                         }
                     }
                 }
@@ -811,7 +836,7 @@ impl<'a> Fx<'a> {
                         if let Ok(pl) = self.place(&mc.receiver) {
                             let is_state = match self.place_ty(&pl) {
                                 Some(Ty::Named(_)) => true,
-                                Some(Ty::Opt(t)) => matches!(*t, Ty::Named(_) | Ty::List(_)) || mn != "clone",
+                                Some(Ty::Opt(t)) => matches!(*t, Ty::Named(_) | Ty::List(_) | Ty::Obs) || mn != "clone",
                                 Some(Ty::List(_)) => mn != "clone",
                                 _ => false,
                             };
@@ -898,6 +923,7 @@ impl<'a> Fx<'a> {
             }
             Stmt::Expr(e, _) => self.expr_stmt(e),
             Stmt::Macro(m) => self.macro_stmt(&m.mac),
+            Stmt::Item(Item::Fn(f)) => self.nested_fn(f),
             Stmt::Item(_) => bail("nested item"),
         }
     }
@@ -1510,6 +1536,36 @@ impl<'a> Fx<'a> {
                 ("new", 1) if full.len() == 2 && full[0] == "Box" && !matches!(args[0], Expr::Closure(_)) => return self.expr(args[0]),
                 ("new", 1) if full.len() == 2 && full[0].starts_with("Subscriber") => return Ok("newPub".into()),
                 ("new", 1) if full.len() == 2 && full[0].starts_with("BoxSubscription") => return self.expr(args[0]),
+                ("new", 2) if full.len() == 2 && full[0] == "OnceTask" => {
+                    // the task function by name, its non-observer arguments as values; its observer must be the
+                    // operator's own slot
+                    let fname = match args[0] {
+                        Expr::Path(fp) => last_seg(&fp.path),
+                        _ => return bail("task function"),
+                    };
+                    let comps: Vec<&Expr> = match args[1] {
+                        Expr::Tuple(t) => t.elems.iter().collect(),
+                        other => vec![other],
+                    };
+                    let mut vals = vec![];
+                    let mut observers = 0;
+                    for c in comps {
+                        match self.tyx(c) {
+                            Some(Ty::Opt(t)) if *t == Ty::Obs => {
+                                let pl = self.place(c)?;
+                                if !(pl.root_self && pl.path == vec![Seg::Field("observer".into())]) {
+                                    return bail("a task whose observer is not the operator's own slot");
+                                }
+                                observers += 1;
+                            }
+                            _ => vals.push(format!("Rs.ToVal.toVal {}", self.expr(c)?)),
+                        }
+                    }
+                    if observers != 1 {
+                        return bail("a task without (or with several) observers");
+                    }
+                    return Ok(format!("(Rs.Task.mk \"{}\" [{}])", fname, vals.join(", ")));
+                }
                 ("new", 1) if full.len() == 2 && full[0] == "Box" && matches!(args[0], Expr::Closure(_)) => {
                     return self.stored_closure(args[0]);
                 }
@@ -1555,6 +1611,9 @@ impl<'a> Fx<'a> {
         }
         if mi.needs_grp {
             a.push("newGrp".into());
+        }
+        if mi.needs_handle {
+            a.push("newHandle".into());
         }
         if mi.needs_down {
             a.push("down".into());
@@ -1607,6 +1666,13 @@ impl<'a> Fx<'a> {
                 return self.struct_call(si, &name, &m.receiver, &args);
             }
             return bail("the slot observer (RcObserver) is not available in this module");
+        }
+        // the scheduler
+        if rt == Some(Ty::Sched) && name == "schedule" && nargs == 2 {
+            let t = self.expr(args[0])?;
+            let d = self.expr(args[1])?;
+            self.out(format!("Rs.emitSched {} {} newHandle.id", t, d))?;
+            return Ok("newHandle".into());
         }
         // an inner observable of a flattening operator
         if rt == Some(Ty::Inner) && name == "actual_subscribe" && nargs == 1 {
@@ -2005,6 +2071,58 @@ impl<'a> Fx<'a> {
         Ok(format!("(Rs.Lazy.mk {}.id)", cap))
     }
 
+    /// a `fn` item inside a method (the body of a scheduled task): a definition of its own; what it does to the observer
+    /// it is handed
+    fn nested_fn(&mut self, f: &syn::ItemFn) -> Res<()> {
+        let g = generics_for(&f.sig.generics, &["Err".to_string()], self.ctx, &HashMap::new())?;
+        let mut params: Vec<(String, Ty)> = vec![];
+        fn flat(p: &Pat, t: &Type, g: &Generics, out: &mut Vec<(String, Ty)>) -> Res<()> {
+            match (p, t) {
+                (Pat::Tuple(pt), Type::Tuple(tt)) if pt.elems.len() == tt.elems.len() => {
+                    for (a, b) in pt.elems.iter().zip(tt.elems.iter()) {
+                        flat(a, b, g, out)?;
+                    }
+                    Ok(())
+                }
+                (Pat::Ident(pi), t) => {
+                    out.push((ident(&pi.ident.to_string()), g.ty(t)?));
+                    Ok(())
+                }
+                _ => bail("parameter pattern of a nested fn"),
+            }
+        }
+        for a in &f.sig.inputs {
+            if let FnArg::Typed(pt) = a {
+                flat(&pt.pat, &pt.ty, &g, &mut params)?;
+            }
+        }
+        let mut fx = self.sub();
+        fx.ind = 1;
+        fx.locals = params.iter().cloned().collect();
+        fx.aliases.clear();
+        fx.payload_of.clear();
+        let n = f.block.stmts.len();
+        for (k, st) in f.block.stmts.iter().enumerate() {
+            // the result (`NormalReturn::new(())`) carries nothing
+            if k + 1 == n && matches!(st, Stmt::Expr(Expr::Call(_), None)) {
+                continue;
+            }
+            fx.stmt(st)?;
+        }
+        if fx.lines.iter().any(|l| l.contains("self_")) {
+            return bail("a nested fn that touches the operator state");
+        }
+        let ps: String = params.iter().map(|(n, t)| format!(" ({} : {})", n, t.lean())).collect();
+        let mut d = format!("def {}.{}__{}{} : Option Rs.Out := do\n  let mut out : Rs.Out := []\n", self.state_ty(), self.fname, f.sig.ident, ps);
+        for l in fx.lines {
+            d += &l;
+            d.push('\n');
+        }
+        d += "  return out\n\n";
+        self.extra.push(d);
+        Ok(())
+    }
+
     /// the Lean name of the state type
     fn state_ty(&self) -> String {
         self.strukt.name.clone()
@@ -2374,7 +2492,7 @@ pub fn translate_observer(items: &[Item], name: &str, ctx: &mut Ctx, hints: &Has
         }
         info.methods.insert(
             fname.clone(),
-            MethodInfo { effectful: !has_ret, params: params.clone(), needs_closed, needs_down, needs_pub: subscribe, needs_grp: body_txt.contains("or_insert_with"), ret: ret.clone(), partial: false },
+            MethodInfo { effectful: !has_ret, params: params.clone(), needs_closed, needs_down, needs_pub: subscribe, needs_grp: body_txt.contains("or_insert_with"), needs_handle: body_txt.contains(". schedule ("), ret: ret.clone(), partial: false },
         );
         sigs.push((fname, params, !has_ret));
     }
@@ -2424,6 +2542,9 @@ pub fn translate_observer(items: &[Item], name: &str, ctx: &mut Ctx, hints: &Has
         }
         if mi.needs_grp {
             ps += " (newGrp : Rs.Grp)";
+        }
+        if mi.needs_handle {
+            ps += " (newHandle : Rs.Sub)";
         }
         if mi.needs_down {
             ps += " (down : Bool)";
@@ -2971,7 +3092,11 @@ pub fn translate_wiring(items: &[Item], op: &str, observers: &[&str]) -> Res<Str
                 Stmt::Local(l) => {
                     if let Some(i) = &l.init {
                         walk(w, &i.expr);
-                        if let Pat::Ident(pi) = &l.pat {
+                        let mut pp = &l.pat;
+                        if let Pat::Type(pt) = pp {
+                            pp = &pt.pat;
+                        }
+                        if let Pat::Ident(pi) = pp {
                             w.cells.push((pi.ident.to_string(), norm_tokens(&*i.expr)));
                         }
                     }
@@ -3211,7 +3336,7 @@ fn main() {
             // the slot observer
             if ent.imports.contains(&"RcObserver") {
                 let mut methods = HashMap::new();
-                let mi = |e: bool, ps: Vec<(String, Ty)>| MethodInfo { effectful: e, params: ps, needs_closed: false, needs_down: !e, needs_pub: false, needs_grp: false, ret: Ty::Bool, partial: false };
+                let mi = |e: bool, ps: Vec<(String, Ty)>| MethodInfo { effectful: e, params: ps, needs_closed: false, needs_down: !e, needs_pub: false, needs_grp: false, needs_handle: false, ret: Ty::Bool, partial: false };
                 methods.insert("next".to_string(), mi(true, vec![("value".into(), Ty::Val)]));
                 methods.insert("error".to_string(), mi(true, vec![("err".into(), Ty::Err)]));
                 methods.insert("complete".to_string(), mi(true, vec![]));
